@@ -9,6 +9,18 @@ VERIF = os.path.dirname(os.path.dirname(os.path.abspath(__file__)))
 TECH = 'Lean 4 theorems on a hand-written model + differential correspondence check + property probe'
 NOTE = 'Trusted: Lean kernel + {propext, Classical.choice, Quot.sound} (audited per theorem on every run); the hand-written model is tied to the C++ by a seeded differential test, not by proof; '
 CLAIMED = {
+    'C14': ('proof', TECH,
+            'Model of RayCasting (setOrigin/setEnd/next/cast, 2D/3D, float/double decision trees) on its own copy of the grid index map. '
+            'Over the reals (origin != end inside the extent): the chain has L1+1 entries, starts in the origin cell, every step is '
+            'face-adjacent (the sentinel never wins while a real crossing remains), every visited cell is crossed by the segment and lies in '
+            'the grid, the closed last cell contains the end point (= its own cell off borders); for every scalar type incl. Float: a cast '
+            'that specifies its end point is independent of every prior state / op sequence (history independence by induction), and the '
+            'coincident case (0/0 direction, RN) yields the single origin cell. 16 theorems in RomeaProofs/Properties/C14.lean. Bit-exact '
+            'differential on cast sequences reusing one caster (incl. exact-tie cases).',
+            NOTE + 'floating-point rounding is outside the real-arithmetic theorems: the probe found, and known_findings.json records as OPEN, '
+            'the ill-conditioned-axis defect (ray parallel to an axis up to a few ulp straddling a cell border: chain overshoots, may leave '
+            'the grid); the Lean Float model reproduces it bit for bit.',
+            'DESIGN.md section 6, C14'),
     'C19': ('other', 'Lean 4 theorems on lock-discipline semantics + kernel-checked discipline of a lock table regenerated from the clang AST on every run '
             '+ ThreadSanitizer probe (partial)',
             'PARTIAL. Proved in Lean for any number of threads and any interleaving: if every plain access of a field happens while the '
